@@ -31,8 +31,10 @@ The inventory is a function of (case, style, options) only.
 """
 
 DISABLE_PATTERNS = ['# DISABLE_DOCTEST', '# UNSTABLE', '# FAILING', '# SCRIPT', '# SLOW_DOCTEST']
+DISABLE_PATTERNS_LC = ['# disable_doctest', '# Script', '# Unstable', '# failing']
 BASE_KINDS = ['pass', 'fail_out', 'fail_exc', 'fail_last', 'all_skipped', 'req_unmet', 'partly', 'expected_exc', 'comment_only',
-              'disabled', 'pass', 'fail_out', 'inline_skipped_after_directive', 'req_after_directive']
+              'disabled', 'pass', 'fail_out', 'inline_skipped_after_directive', 'req_after_directive', 'fail_warn', 'pass_warn',
+              'fail_directive_first']
 OPTION_KINDS = ['needs_ellipsis', 'needs_nw', 'needs_iw']
 MERGEABLE = ('pass', 'fail_out', 'fail_exc', 'fail_last', 'expected_exc')
 
@@ -61,6 +63,18 @@ def block_lines(kind, tid, ind, pattern=None):
     elif kind == 'req_after_directive':
         L += ['{}>>> # xdoctest: +ELLIPSIS'.format(ind), '{}>>> # xdoctest: +REQUIRES(env:VP_NEVER_SET_VARIABLE==1)'.format(ind), t,
               "{}>>> print('never')".format(ind), '{}wrong'.format(ind)]
+    elif kind == 'fail_warn':
+        # emits a warning, then fails: it is a failure like any other
+        L += [t, '{}>>> import warnings'.format(ind), "{}>>> warnings.warn('vp warning from {}')".format(ind, tid),
+              "{}>>> print('out {}')".format(ind, tid), '{}something else'.format(ind)]
+    elif kind == 'pass_warn':
+        L += [t, '{}>>> import warnings'.format(ind), "{}>>> warnings.warn('vp warning from {}')".format(ind, tid),
+              "{}>>> print('out {}')".format(ind, tid), '{}out {}'.format(ind, tid)]
+    elif kind == 'fail_directive_first':
+        # a malformed directive on the first statement: the doctest fails before anything ran
+        L += [t + '  # xdoctest: +REQUIRES(nosuchkind:zzz)', "{}>>> print('never')".format(ind)]
+    elif kind == 'disabled_lc':
+        L += ['{}>>> {}'.format(ind, pattern or DISABLE_PATTERNS_LC[0]), t, "{}>>> print('body would fail')".format(ind), '{}wrong'.format(ind)]
     elif kind == 'partly':
         L += [t, "{}>>> print('skipped stmt')  # xdoctest: +SKIP".format(ind), '{}wrong'.format(ind), "{}>>> print('ran')".format(ind),
               '{}ran'.format(ind)]
@@ -85,13 +99,19 @@ def block_lines(kind, tid, ind, pattern=None):
 def outcome_of(kind, options=()):
     """(outcome, traced) when the block runs as its own doctest under 'all'"""
     opts = set(options)
+    if '+SKIP' in opts and kind == 'fail_directive_first':
+        return 'failed', False        # the malformed directive is met before any skip decision
     if '+SKIP' in opts and kind != 'comment_only':
         # every statement is skipped from the start; a block -SKIP is not generated
         return 'skipped', False
-    if kind in ('pass', 'partly', 'expected_exc'):
+    if kind in ('pass', 'partly', 'expected_exc', 'pass_warn'):
         return 'passed', True
-    if kind in ('fail_out', 'fail_exc', 'fail_last'):
+    if kind in ('fail_out', 'fail_exc', 'fail_last', 'fail_warn'):
         return 'failed', True
+    if kind == 'fail_directive_first':
+        return 'failed', False
+    if kind == 'disabled_lc':
+        return 'failed', True            # when it runs (lower-case spelling: whether it is force-disabled is left open)
     if kind in ('all_skipped', 'req_unmet', 'comment_only', 'inline_skipped_after_directive', 'req_after_directive'):
         return 'skipped', False
     if kind == 'disabled':
@@ -105,9 +125,9 @@ def outcome_of(kind, options=()):
     raise KeyError(kind)
 
 
-def gen_module(D, max_funcs=8, option_kinds=False, min_funcs=0):
+def gen_module(D, max_funcs=8, option_kinds=False, min_funcs=0, lc_disable=False):
     funcs = []
-    kinds = BASE_KINDS + (OPTION_KINDS + OPTION_KINDS if option_kinds else [])
+    kinds = BASE_KINDS + (OPTION_KINDS + OPTION_KINDS if option_kinds else []) + (['disabled_lc'] if lc_disable else [])
     for i in range(D.int(min_funcs, max_funcs)):
         name = 'f{}'.format(i)
         if i and D.chance(1, 5):
@@ -118,7 +138,7 @@ def gen_module(D, max_funcs=8, option_kinds=False, min_funcs=0):
         layout = D.choice(['google', 'google', 'bare'])
         blocks = []
         k = D.choice(kinds)
-        pat = D.choice(DISABLE_PATTERNS) if k == 'disabled' else None
+        pat = D.choice(DISABLE_PATTERNS) if k == 'disabled' else (D.choice(DISABLE_PATTERNS_LC) if k == 'disabled_lc' else None)
         blocks.append({'kind': k, 'pattern': pat})
         if layout == 'google' and k in MERGEABLE and D.chance(1, 4):
             blocks.append({'kind': D.choice(list(MERGEABLE)), 'pattern': None})
@@ -201,6 +221,7 @@ def inventory(case, style, options=()):
             for b, blk in enumerate(fn['blocks']):
                 oc, tr = outcome_of(blk['kind'], options)
                 out.append({'id': '{}:{}'.format(cn, b), 'callname': cn, 'num': b, 'disabled': blk['kind'] == 'disabled',
+                            'maybe_disabled': blk['kind'] == 'disabled_lc',
                             'kind': blk['kind'], 'outcome': oc, 'traces': ['{}:{}'.format(cn, b)] if tr else []})
         else:
             # one doctest for the docstring: the blocks run in sequence until the first failure
@@ -225,5 +246,6 @@ def inventory(case, style, options=()):
                 if '+SKIP' in set(options):
                     outcome = 'skipped'
             out.append({'id': '{}:0'.format(cn), 'callname': cn, 'num': 0, 'disabled': disabled, 'kind': '+'.join(kinds),
+                        'maybe_disabled': kinds[0] == 'disabled_lc',
                         'outcome': outcome, 'traces': traces})
     return out
